@@ -159,6 +159,9 @@ def _run(ex, c, ci, node, res):
     def on_ret(st1, v):
         if c.yields is not None or rty.k == "none":
             return check_post(st1, VNone(), "exit", None)
+        if not fits(v, rty) and isinstance(v, VOpt):
+            # an option of another shape: decide None-ness on this path and retry with the narrowed value
+            return ex.branch(st1, v.isnone, lambda s_: on_ret(s_, VNone()), lambda s_: on_ret(s_, v.val))
         if not fits(v, rty):
             ob = Obligation("%s::%s::exit::return-type" % (ex.file, ex.qual), st1.pc, z3.BoolVal(False), kind="type")
             ob.detail = "returned %r where %r is declared" % (v, rty)
